@@ -380,6 +380,19 @@ def run(ctx):
     ret = P.strip(pr.local(0))
     if inserts and any(P.strip(pr.operand(t["args"][0])) != ret for _, t in inserts):
         ctx.violation(rule, f"{fn.path}|returned-map", "rank_pairs() does not return the map it fills", fn=fn.path, file=fn.file, line=fn.line)
+    # .. and nothing else edits it: the guarded inserts are its only writers (a `retain`, `remove`, `clear`, .. after the scan
+    # takes reported rank pairs out again — their combos then appear in neither view of the range)
+    MUTATORS = ("retain", "remove", "remove_entry", "clear", "drain", "extract_if", "entry", "get_mut", "iter_mut", "values_mut",
+                "extend", "insert", "try_insert", "get_or_insert_with", "into_iter", "into_keys", "into_values")
+    ins_blocks = {b_ for b_, _t in inserts}
+    for b_, t_ in fn.calls():
+        if b_ not in fn.cfg.reachable or not t_["args"] or b_ in ins_blocks:
+            continue
+        nm_ = t_["callee"].get("name")
+        if nm_ in MUTATORS and P.strip(pr.operand(t_["args"][0])) == ret:
+            ctx.violation(rule, f"{fn.path}|other-writer|{nm_}", f"the map rank_pairs() returns is also edited by `{nm_}` (line {fn.blocks[b_]['line']}): "
+                          "what it reports is no longer exactly the rank pairs the guarded inserts put there",
+                          fn=fn.path, file=fn.file, line=fn.blocks[b_]["line"], construct=f"{nm_} on the reported map")
 
     # ---- orphan_card_pairs --------------------------------------------------------------------
     rule_o = "C12.leftovers"
